@@ -26,7 +26,7 @@ def count_harness(ty, src, n, t, c, chunk_expr=None):
     name = cfg_name("c04_count", ty, src, f"n{n}", f"t{t}", f"c{c}")
     return H(name, body, {"terminal": "count", "type": ty, "kernel": KERNEL_OF_TYPE[ty] + "_cnt", "src": src, "n": n,
                           "threads": t, "chunk": chunk_expr or f"Exact({c})", "schedule": "symbolic"},
-             unwind=n + 2, weight=n * t * (2 if c == 1 else 3))
+             unwind=(23 if (chunk_expr and "Auto" in chunk_expr) else n + 2), weight=n * t * (2 if c == 1 else 3))
 
 
 def foreach_harness(ty, src, n, t, c):
@@ -61,7 +61,7 @@ def harnesses(tier, seed):
     if tier == "quick":
         for ty in ("MF", "FMF", "FLF"):
             for c in (1, 2):
-                hs.append(count_harness(ty, "slice", 4, 2, c))
+                hs.append(count_harness(ty, "slice", 3 if (ty == "FLF" and c == 2) else 4, 2, c))
         for ty in ("MF", "FMF", "FLF"):
             hs.append(count_harness(ty, "slice", 5, 2, 2))  # 3 chunks for 2 workers: early-stopping workers lose the tail
         hs.append(count_harness("MF", "sched", 4, 2, 1))    # iterator-backed sources under the schedule model
@@ -69,7 +69,7 @@ def harnesses(tier, seed):
         hs.append(count_harness("FLF", "schedx", 3, 2, 1))
         hs.append(foreach_harness("M", "slice", 3, 2, 1))
         hs.append(foreach_harness("FMF", "slice", 3, 2, 2))
-        hs.append(foreach_harness("FL", "slice", 3, 2, 2))
+        hs.append(foreach_harness("FL", "slice", 3, 2, 1))
         hs.append(unsched_count("MF", "iterf", 3, 2, 1))
     else:
         for ty in ("E", "M", "F", "MF", "FM", "FMF", "FL", "FLF"):
